@@ -34,10 +34,11 @@ LEVEL = "exploration"
 # --------------------------------------------------------------------------------------------------------------------
 # tolerances (measured on the tree with the two C11 defects repaired in a scratch copy, see the final report / evidence)
 QUAD_TOL = 2.0 ** -26  # the library's fixed quadrature tolerance for its eta function (oqupy.config.INTEGRATE_EPSREL)
-TOL_A = 1e-6           # commuting family: limited by the library's quadrature of eta(beta) only (truncation is exact)
+TOL_A = 2e-7           # commuting family: limited by the library's quadrature of eta(beta) only (truncation is exact)
 TOL_B = 1e-12          # zero coupling: no quadrature, no truncation
-C_W = 3.0              # weak coupling: |rho - rho_can| <= C_W * lambda o_max^2 / T + C_EPS * epsrel
-C_EPS = 30.0           # truncation-limited quantities: C_EPS * epsrel
+C_W = 10.0             # weak coupling: |rho - rho_can| <= C_W * lambda o_max^2 / T + C_EPS * epsrel
+C_EPS = 30.0           # truncation-limited state comparisons: C_EPS * epsrel
+C_PHYS = 100.0         # Hermiticity / positivity / reality: C_PHYS * epsrel
 TOL_ID = 1e-13         # repeated compute() must not change anything
 TOL_TRACE = 1e-12
 INFL_MIN = 0.05        # a case is non-trivial if the bath moves the exact state by more than this
@@ -219,9 +220,9 @@ def physical(rho, eps):
     nums = {"trace": float(tr), "herm": herm, "mineig": mineig}
     if tr > TOL_TRACE:
         return "not-normalised", nums
-    if herm > C_EPS * eps:
+    if herm > C_PHYS * eps:
         return "not-hermitian", nums
-    if mineig < -C_EPS * eps:
+    if mineig < -C_PHYS * eps:
         return "not-positive", nums
     return None, nums
 
@@ -289,7 +290,7 @@ def case_a(o, hk, sd, temp, alpha, n, eps):
         cands.append(("returns-transpose", exact.T, None))
     if miss * max(o2.diagonal()) > TOL_A:
         defect = canonical(h, temp, (lam - temp * miss) * o2)
-        cands.append(("matsubara-guard-term-dropped", defect, 3e-6))
+        cands.append(("matsubara-guard-term-dropped", defect, 3e-6))   # the model itself is good to ~1e-9*exponent
         if asym > 100 * TOL_A:
             cands.append(("returns-transpose+matsubara-guard-term-dropped", defect.T, 3e-6))
     sig, dev = classify(got, cands, TOL_A)
@@ -467,7 +468,7 @@ def case_finite(hk, o, sd, temp, n, eps, alpha, with_path):
     psig, nums = physical(got, eps)
     r["phys"] = nums
     r["infl"] = float(np.abs(got - canonical(h, temp)).max())
-    if hk.endswith("real") and float(np.abs(got.imag).max()) > C_EPS * eps and psig is None:
+    if hk.endswith("real") and float(np.abs(got.imag).max()) > C_PHYS * eps and psig is None:
         psig = "complex-for-real-H"
     if psig:
         r["sig"], r["what"] = psig, f"H={hk} O=diag{tuple(o)} {sd} alpha={alpha} T={temp} n_steps={n} epsrel={eps}: {psig} {nums}"
@@ -479,7 +480,7 @@ def case_finite(hk, o, sd, temp, n, eps, alpha, with_path):
 
 
 def cls_f(g, part, sig):
-    return f"{part}|H={g['hk']}|O=diag{tuple(g['o'])}|{sig}"
+    return f"{part}|H={g['hk']}|{sig}"
 
 
 def work_f(g):
@@ -598,16 +599,16 @@ def run(tier, seed):
         for r in res["runs"]:
             ev["A"] += 1
             monitored += r["phys"] is not None
+            if r["infl"] > INFL_MIN:
+                nontriv["A"].add((tuple(g["o"]), g["hk"], g["sd"], g["T"], g["alpha"], r["rp"]["n"], r["rp"]["eps"]))
+                _upd(st, "A_min_bath_influence_nontrivial", r["infl"], min)
             if r["sig"]:
                 rep.add(Violation(cls_a(g, r["sig"]), r["what"], r["rp"]))
                 _upd(st, "A_max_dev_violating", r["dev"], max)
                 continue
             _upd(st, "A_max_dev", r["dev"], max)
             _upd(st, "max_herm_dev_over_epsrel", r["phys"]["herm"] / r["rp"]["eps"], max)
-            _upd(st, "min_eigenvalue", r["phys"]["mineig"], min)
-            if r["infl"] > INFL_MIN:
-                nontriv["A"].add((tuple(g["o"]), g["hk"], g["sd"], g["T"], g["alpha"], r["rp"]["n"], r["rp"]["eps"]))
-                _upd(st, "A_min_bath_influence_nontrivial", r["infl"], min)
+            _upd(st, "min_eigenvalue_over_epsrel", r["phys"]["mineig"] / r["rp"]["eps"], min)
             if g["hk"] == "block-complex":
                 _upd(st, "A_min_transpose_visibility_complex_blocks", r["asym"], min)
     # ---- B, C, D
@@ -616,36 +617,36 @@ def run(tier, seed):
         for r in res["zero"]:
             ev["B"] += 1
             monitored += r["phys"] is not None
+            nontriv["B"].add(key + (r["rp"]["variant"],))
             if r["sig"]:
                 rep.add(Violation(cls_f(g, "zero-coupling:" + r["rp"]["variant"], r["sig"]), r["what"], r["rp"]))
                 _upd(st, "B_max_dev_violating", r["dev"], max)
                 continue
             _upd(st, "B_max_dev", r["dev"], max)
-            nontriv["B"].add(key + (r["rp"]["variant"],))
             if "complex" in g["hk"]:
                 _upd(st, "B_min_transpose_visibility_complex_H", r["asym"], min)
         r = res["weak"]
         ev["C"] += len(r["devs"]) + (1 if r["sig"] and r["sig"].startswith("exception") else 0)
         monitored += len(r["phys"])
+        _upd(st, "C_min_commutator_H_O", r["comm"], min)
+        if r["comm"] > 0.1:
+            nontriv["C"].add(key)
         if r["sig"]:
             rep.add(Violation(cls_f(g, "weak-coupling", r["sig"]), r["what"], r["rp"]))
             _upd(st, "C_max_dev_over_tol_violating", max(r["ratios"]) if r["ratios"] else None, max)
         else:
             _upd(st, "C_max_dev_over_tol", max(r["ratios"]), max)
-            _upd(st, "C_min_commutator_H_O", r["comm"], min)
-            if r["comm"] > 0.1:
-                nontriv["C"].add(key)
         for r in res["finite"]:
             ev["D"] += 1
             monitored += r["phys"] is not None
+            if r["infl"] is not None and r["infl"] > INFL_MIN:
+                nontriv["D"].add(key + (r["rp"]["alpha"],))
             if r["sig"]:
                 rep.add(Violation(cls_f(g, "finite-coupling", r["sig"]), r["what"], r["rp"]))
                 continue
             _upd(st, "max_herm_dev_over_epsrel", r["phys"]["herm"] / g["eps"], max)
-            _upd(st, "min_eigenvalue", r["phys"]["mineig"], min)
+            _upd(st, "min_eigenvalue_over_epsrel", r["phys"]["mineig"] / g["eps"], min)
             _upd(st, "D_min_bath_influence", r["infl"], min)
-            if r["infl"] > INFL_MIN:
-                nontriv["D"].add(key + (r["rp"]["alpha"],))
             if r["pdev"] is not None:
                 _upd(st, "D_info_pathsum_compared", 1, lambda a, b: a + b)
                 _upd(st, "D_info_max_dev_from_independent_path_sum", r["pdev"], max)
@@ -653,12 +654,12 @@ def run(tier, seed):
     # ---- E
     for g, r in zip(ge, re_):
         ev["E"] += r["computes"]
+        if r["infl"] is not None and r["infl"] > INFL_MIN:
+            nontriv["E"].add((g["src"], tuple(g["o"]), g["hk"], g["T"], g["n"]))
         if r["sig"]:
             rep.add(Violation(cls_e(g, r["sig"]), r["what"], r["rp"]))
             continue
         _upd(st, "E_max_dev", r["dev"], max)
-        if r["infl"] is not None and r["infl"] > INFL_MIN:
-            nontriv["E"].add((g["src"], tuple(g["o"]), g["hk"], g["T"], g["n"]))
 
     t = tiers(tier)
     amax = st.get("A_max_dev") or 0.0
@@ -687,7 +688,7 @@ def run(tier, seed):
         "exhaustive": True,
         "max_dev": amax, "tolerance": TOL_A, "max_dev_over_tol": amax / TOL_A,
         "tolerances": {"A": TOL_A, "B": TOL_B, "C": f"{C_W}*lambda*o_max^2/T + {C_EPS}*epsrel", "E": TOL_ID,
-                       "hermiticity/positivity": f"{C_EPS}*epsrel", "trace": TOL_TRACE},
+                       "hermiticity/positivity/reality": f"{C_PHYS}*epsrel", "trace": TOL_TRACE},
         "B_max_dev_over_tol": (st.get("B_max_dev") or 0.0) / TOL_B,
         "E_max_dev_over_tol": (st.get("E_max_dev") or 0.0) / TOL_ID,
         "stats": st,
@@ -696,7 +697,7 @@ def run(tier, seed):
     rep.assumptions = [
         "oracle A: rho = exp(-(H - lambda O^2)/T)/Z for [H,O]=0 (displaced-oscillator identity), lambda = int J/w by own "
         "quadrature of own J formulas, cross-checked against closed forms to 1e-9 relative at run time",
-        "tolerance A (1e-6) is set by the library's fixed quadrature tolerance 2^-26 for its eta function times the size of "
+        "tolerance A (2e-7) is set by the library's fixed quadrature tolerance 2^-26 for its eta function times the size of "
         "the exponent (<= 22 in the alphabet); the tensor-network truncation is exact for commuting models",
         "weak coupling: only the bound C*lambda*o_max^2/T and monotonic decrease are checked (what the property states), "
         "not the first-order coefficient",
